@@ -156,7 +156,7 @@ def axiom_audit(modules, namespaces):
             name = m.group(1)
             if not any(name == ns or name.startswith(ns + ".") for ns in namespaces):
                 continue
-            if re.search(r"\.(congr_simp|eq_\d+|eq_def|match_\d+|proof_\d+|_\w+)", name):
+            if re.search(r"\.(congr_simp|eq_\d+|eq_def|match_\d+|proof_\d+|_\w+)", name) or re.search(r"\.(mk\.(inj|injEq|sizeOf_spec)|sizeOf_spec|injEq|inj|noConfusion\w*|ctorIdx\w*)$", name):
                 continue
             axs = [a for a in m.group(2).split(",") if a]
             thms[name] = axs
